@@ -39,6 +39,11 @@ def REC(ctor, *fields):
     return ("rec", ctor, fields)
 
 
+def REF(thunk, name):
+    """a recursive reference to a type description"""
+    return ("ref", thunk, name)
+
+
 def SUM(*alts):
     """alts: (tag, constructor, field types)"""
     return ("sum", {a[0]: (a[1], a[2]) for a in alts})
@@ -150,7 +155,24 @@ SPEC.update({
                  R(REC("Build_pc_dataset", L(STR), L(STR), L(STR), L(STR), STR, STR, STR, STR, STR, OS, OS, OS, OS, OS,
                        L(L(Z)), L(B)))),
 })
-IMPORTS = "Model.Base Model.Tdc Model.Merge Model.Digest Model.PinTsv Model.Confidence Model.Calibrate Model.Brew Model.PinCols Model.Fs Model.Fdr Model.Peps Model.BrewDecision Model.Strip Model.Picked Model.Grouping Model.Fasta Model.Decoys Model.Pepxml Model.PinVerify Model.CalibrateD"
+TRTABLE = REC("Build_tr_table", L(NAT), L(L(Z)))
+TRFN = SUM((0, "tr_fn_const", [Z]), (1, "tr_fn_copy", [NAT]), (2, "tr_fn_len", []), (3, "tr_fn_short", [Z]))
+TRREF = REF(lambda: TRREADER, "tr_reader")
+TRREADER = SUM((0, "TrFrame", [TRTABLE]), (1, "TrCsv", [TRTABLE]), (2, "TrParquet", [TRTABLE, L(NAT), L(NAT)]),
+               (3, "TrMapped", [TRREF, L(P(NAT, NAT))]), (4, "TrJoined", [L(TRREF)]), (5, "TrComputed", [TRREF, NAT, TRFN]))
+CHFRAME = REC("Build_ch_frame", L(NAT), L(NAT), L(L(Z)))
+BWKIND = E("BwFrame", "BwDicts", "BwRecords")
+SPEC.update({
+    "c13.read": ([TRREADER, O(L(NAT))], "tr_read", R(CHFRAME)),
+    "c13.chunks": ([TRREADER, NAT, O(L(NAT))], "tr_chunks", R(L(CHFRAME))),
+    "c13.names": ([TRREADER], "tr_names", L(NAT)),
+    "c13.writer": ([NAT, BWKIND, L(L(L(Z)))], "bw_from_suffix", R(P(L(L(L(Z))), NAT))),
+    "c13.buffered": ([NAT, BWKIND, L(L(L(Z)))],
+                     "(fun b k ds => match bw_run b k ds with Ok s => Ok (bw_emitted s, bw_pending s) | Err e => Err e end)",
+                     R(P(L(L(L(Z))), L(L(Z))))),
+    "c13.pure": ([NAT, L(Z)], "(fun c l => (ch_chunks c l, ch_ranges c l))", P(L(L(Z)), L(L(NAT)))),
+})
+IMPORTS = "Model.Base Model.Tdc Model.Merge Model.Digest Model.PinTsv Model.Confidence Model.Calibrate Model.Brew Model.PinCols Model.Fs Model.Fdr Model.Peps Model.BrewDecision Model.Strip Model.Picked Model.Grouping Model.Fasta Model.Decoys Model.Pepxml Model.PinVerify Model.CalibrateD Model.Chunks Model.Readers Model.Buffered"
 
 
 class _Toks:
@@ -173,6 +195,8 @@ def _int(tok):
 
 
 def parse(t, ty):
+    if ty[0] == "ref":
+        ty = ty[1]()
     if ty in (Z, NAT):
         return _int(t.nxt())
     if ty == B:
@@ -213,6 +237,8 @@ def coqty(ty):
     if ty in (Z, NAT, B, Q):
         return {Z: "Z", NAT: "nat", B: "bool", Q: "Q"}[ty]
     k = ty[0]
+    if k == "ref":
+        return ty[2]
     if k == "list":
         t = coqty(ty[1])
         return "(list %s)" % t if t else None
@@ -226,6 +252,8 @@ def coqty(ty):
 
 
 def lit(v, ty):
+    if ty[0] == "ref":
+        ty = ty[1]()
     if ty == Z:
         return "(%d)%%Z" % v
     if ty == NAT:
@@ -263,7 +291,7 @@ def lit(v, ty):
 
 def norm(ty):
     """Coq function that brings a computed value into the form the driver prints (None: nothing to do)"""
-    if ty in (Z, NAT, B) or ty[0] in ("enum", "rec", "err"):
+    if ty in (Z, NAT, B) or ty[0] in ("enum", "rec", "err", "ref"):
         return None
     if ty == Q:
         return "Qred"
